@@ -32,6 +32,8 @@ type Base struct {
 
 // An Entry is one codec of the inventory.
 type Entry struct {
+	// DecodeInto decodes b into an EXISTING value of the entry's type (a receiver that has been used before).
+	DecodeInto func(recv any, b []byte) error
 	Pkg  string // types, consensus, gateway, rhp/v2, rhp/v3, rhp/v4
 	Name string // e.g. "types.V2Transaction", "gateway.RPCSendHeaders.request"
 	T    reflect.Type
@@ -188,6 +190,7 @@ func std[T any, P interface {
 		err := Dec(b, p.DecodeFrom)
 		return p, err
 	}
+	e.DecodeInto = func(recv any, b []byte) error { return Dec(b, recv.(P).DecodeFrom) }
 	return add(e)
 }
 
@@ -204,5 +207,6 @@ func fn[T any](pkg, name string, enc func(*T, *types.Encoder), dec func(*T, *typ
 		err := Dec(b, func(d *types.Decoder) { dec(p, d) })
 		return p, err
 	}
+	e.DecodeInto = func(recv any, b []byte) error { return Dec(b, func(d *types.Decoder) { dec(recv.(*T), d) }) }
 	return add(e)
 }
